@@ -15,6 +15,7 @@
      ad_step    547-548  sdf_iter = sum_k d_k^2 d_sdfs / sum_k d_k^2
      ad_cfn     550-552  cfn = sum_k eigvals (sdf_iter - d_sdfs) / (eigvals sdf_iter + bband_sup)^2
      ad_weights 562-564  weights = d_k of the last pass (bins below min_pwr: w_def, i.e. one pass)
+     ad_weights_few, ad_nu_few  486-497  the branch for fewer than 3 tapers
    Not modelled: the 150 dB partition itself (is_default is an argument), np.percentile. *)
 From Coq Require Import QArith List Arith Bool.
 From NT Require Import QC Sums Spectral.
@@ -52,3 +53,15 @@ Definition ad_weights (m : nat) (is_default : nat -> bool) (sd : sides) (N K : n
 Definition mt_psd_adaptive (m : nat) (is_default : nat -> bool) (sd : sides) (N K : nat) (Fs : Q)
            (rt lam : nat -> Q) (Y : nat -> sig) (f : nat) : Q :=
   mt_psd sd N K Fs (ad_weights m is_default sd N K rt lam Y) Y f.
+
+(* ---- the branch for fewer than 3 tapers (utils.py 486-497): "not adaptively combining the spectral
+   estimators": weights = sqrt(eigvals) repeated over the L bins, nu = 2 * K *)
+Definition ad_weights_few (rt : nat -> Q) (k f : nat) : Q := rt k.
+Definition ad_nu_few (K : nat) : nat := (2 * K)%nat.
+(* adaptive_weights as a whole *)
+Definition ad_weights_all (m : nat) (is_default : nat -> bool) (sd : sides) (N K : nat) (rt lam : nat -> Q)
+           (Y : nat -> sig) : nat -> nat -> Q :=
+  if (K <? 3)%nat then ad_weights_few rt else ad_weights m is_default sd N K rt lam Y.
+Definition mt_psd_adaptive_all (m : nat) (is_default : nat -> bool) (sd : sides) (N K : nat) (Fs : Q)
+           (rt lam : nat -> Q) (Y : nat -> sig) (f : nat) : Q :=
+  mt_psd sd N K Fs (ad_weights_all m is_default sd N K rt lam Y) Y f.
